@@ -172,6 +172,10 @@ def _validator_call(fv, hole_term: ast.AST):
     """§unpack(prepare_aspirate_dispense_parameters(...), i) -> (call, i)"""
     if is_sym(hole_term, "unpack") and isinstance(hole_term.args[0], ast.Call) and call_fname(hole_term.args[0]) == "prepare_aspirate_dispense_parameters":
         return hole_term.args[0], hole_term.args[1].value
+    # checked = prepare_aspirate_dispense_parameters(...); rack_label = checked[0]
+    if isinstance(hole_term, ast.Subscript) and isinstance(hole_term.slice, ast.Constant) and isinstance(hole_term.slice.value, int) and hole_term.slice.value >= 0 \
+            and isinstance(hole_term.value, ast.Call) and not is_sym(hole_term.value) and call_fname(hole_term.value) == "prepare_aspirate_dispense_parameters":
+        return hole_term.value, hole_term.slice.value
     return None
 
 
@@ -377,7 +381,8 @@ def _str_checks(terms, var: str) -> Dict[str, bool]:
         if a.kind == "isinstance" and a.var == var and not a.pol and a.types == ["str"]:
             got["type"] = True
         e = a.expr
-        if isinstance(e, ast.Compare) and len(e.ops) == 1 and isinstance(e.ops[0], ast.In) and a.pol and isinstance(e.left, ast.Constant) and e.left.value == ";" and is_name(e.comparators[0], var):
+        if isinstance(e, ast.Compare) and len(e.ops) == 1 and ((isinstance(e.ops[0], ast.In) and a.pol) or (isinstance(e.ops[0], ast.NotIn) and not a.pol)) \
+                and isinstance(e.left, ast.Constant) and e.left.value == ";" and is_name(e.comparators[0], var):
             got["sep"] = True
         if a.kind == "cmp" and a.cmp is not None:
             ln = Poly.symbol(ast.Call(func=ast.Name(id="len", ctx=ast.Load()), args=[ast.Name(id=var, ctx=ast.Load())], keywords=[]))
@@ -482,6 +487,13 @@ def _int_validated_names(fv, before: int) -> Set[str]:
             ok.add(subj.id)
         elif is_sym(subj, "elem") and isinstance(strip_norm(subj.args[1]), ast.Name):
             ok.add("each:" + strip_norm(subj.args[1]).id)
+        elif is_sym(subj, "elem") and (is_sym(strip_norm(subj.args[1]), "phi") or isinstance(strip_norm(subj.args[1]), ast.IfExp)):
+            # for w in ([] if ws is None else list(ws)): <isinstance check of w>
+            src = strip_norm(subj.args[1])
+            for a_ in (src.args if is_sym(src, "phi") else [src.body, src.orelse]):
+                for s2 in ast.walk(a_):
+                    if isinstance(s2, ast.Name) and s2.id != "list":
+                        ok.add("each:" + s2.id)
         elif is_sym(subj, "item") and is_sym(subj.args[0], "elem") and isinstance(subj.args[1], ast.Constant):
             pos = subj.args[1].value
             loopid = subj.args[0].args[0].value if isinstance(subj.args[0].args[0], ast.Constant) else ""
@@ -584,7 +596,7 @@ def diti_switch(ctx) -> None:
                 lit = e.comparators[0].value
                 # which registered templates can satisfy `last == lit` ?
                 matches = _matching_templates(ctx, lit, whole=True)
-                last_ok = is_last and isinstance(e.ops[0], ast.Eq) and not a.pol and matches == {"B"}
+                last_ok = is_last and ((isinstance(e.ops[0], ast.Eq) and not a.pol) or (isinstance(e.ops[0], ast.NotEq) and a.pol)) and matches == {"B"}
                 if is_last and matches != {"B"}:
                     detail = f"`{show(e)}` is satisfied by the record types {sorted(matches)}, not only by the break record"
             elif isinstance(e, ast.Compare) and isinstance(e.left, ast.Subscript) and isinstance(e.left.value, ast.Subscript) and is_name(e.left.value.value, selfn):
